@@ -9,7 +9,7 @@ from hypothesis import strategies as st
 from .. import cfutil, gen, ref_ctf
 from ..common import Outcome, open_regions
 from ..model import FSCM
-from ..sem import Evaluator, FreeVariable, MultiWorld, Undefined
+from ..sem import AMBIGUOUS, AmbiguousReading, Evaluator, FreeVariable, MultiWorld, Undefined, interventions_of
 from ..y0util import V, build_graph, graph_key, graph_sample
 
 ID = "C19"
@@ -70,11 +70,17 @@ def symbol_needed_twice(g, items) -> bool:
     d = set()
     for it in items:
         d |= ref_ctf.ancestors(g, _pair(it))
-    forms = {ref_ctf.factor_form(g, v) for v in d}
-    names = [f[0] for f in forms]
-    if len(set(names)) < len(names) or len({v[0] for v in d}) < len(d):
-        return True
     outcome = {it["v"] for it in items}
+    versions, forms = {}, {}
+    for v in d:
+        versions.setdefault(v[0], set()).add(v)
+        forms.setdefault(v[0], set()).add(ref_ctf.factor_form(g, v))
+    for n, vs in versions.items():
+        # two versions of a variable that has to be summed out (one summation symbol for two quantities), or two
+        # versions that ctf-factor form writes identically (collapsed into one set element).  Two versions of an
+        # OUTCOME variable with different ctf-factor forms are written correctly and are not part of this finding.
+        if len(vs) > 1 and (n not in outcome or len(forms[n]) < len(vs)):
+            return True
     summed = {v[0] for v in d} - outcome
     fixed_subs = {n for it in items for n, _ in it["do"]}
     if summed & fixed_subs:
@@ -109,7 +115,7 @@ def symbol_needed_twice(g, items) -> bool:
 @st.composite
 def _case(draw, gs):
     g = draw(gs)
-    op = draw(st.sampled_from(OPS))
+    op = draw(st.sampled_from(OPS + ["factorization", "factorization", "simplify"]))
     c = {"op": op, "g": g, "mseed": draw(st.integers(0, 2**32)), "max_card": draw(st.sampled_from([2, 2, 2, 3]))}
     if op in ("minimize", "ancestors", "factor_form"):
         c["event"] = draw(cfutil.event_items(g["nodes"], max_items=1, max_subs=3))
@@ -118,6 +124,9 @@ def _case(draw, gs):
         k = draw(st.integers(0, len(items)))
         c["event"] = items
         c["n_conditioned"] = k
+    elif op == "factorization":
+        # reflexive subscripts are outside this sub-claim's domain (see check); do not spend cases on them
+        c["event"] = draw(cfutil.event_items(g["nodes"], max_items=3, edges=g["di"], reflexive=draw(st.integers(0, 7)) == 0))
     else:
         c["event"] = draw(cfutil.event_items(g["nodes"], max_items=3, edges=g["di"]))
     return c
@@ -133,6 +142,33 @@ def _pair(it):
 
 def _y0_event(items):
     return [(cfutil.build_variable(it), cfutil.build_value(it)) for it in items]
+
+
+def _partition_problem(api, g, graph, items):
+    """get_counterfactual_factors on the ancestral set D_* in ctf-factor form (Eq. 15): the blocks are non-empty, pairwise
+    disjoint, cover D_*, and two variables share a block iff their vertices share a district of G[V(D_*)]."""
+    from ..ref_id import G as RG
+
+    d = set()
+    for it in items:
+        d |= ref_ctf.ancestors(g, _pair(it))
+    forms = {ref_ctf.factor_form(g, v) for v in d}
+    bases = {f[0] for f in forms}
+    sub = graph.subgraph({V(b) for b in bases})
+    variables = {cfutil.build_variable({"v": n, "do": sorted(map(list, subs))}): (n, subs) for n, subs in forms}
+    blocks = api.get_counterfactual_factors(event=set(variables), graph=sub)
+    rg = RG(sorted(bases), [e for e in g["di"] if e[0] in bases and e[1] in bases], [e for e in g["bi"] if e[0] in bases and e[1] in bases])
+    want = {}
+    for f in forms:
+        want.setdefault(rg.district_of([f[0]]), set()).add(f)
+    want = {frozenset(b) for b in want.values()}
+    try:
+        got = [frozenset(ref_ctf.to_pair(v) for v in b) for b in blocks]
+    except Exception as e:
+        return {"blocks": repr(blocks)[:300], "exc": repr(e)}
+    if len(set(got)) != len(got) or set(got) != want or any(len(b) != len(fb) for b, fb in zip(blocks, got)):
+        return {"blocks": sorted(sorted(map(str, b)) for b in blocks), "expected": sorted(sorted((n, sorted(s)) for n, s in b) for b in want)}
+    return None
 
 
 def check(case, ignore_regions=False) -> Outcome:
@@ -257,6 +293,9 @@ def check(case, ignore_regions=False) -> Outcome:
                 out.labels = sorted(labels)
                 return out
             simp = _y0_event(items)
+            bad = _partition_problem(api, g, graph, items)
+            if bad:
+                return fail("ctf-factors-do-not-partition-the-ancestral-set", **bad)
             if REGION_F15 in regions and symbol_needed_twice(g, items):
                 out.excluded = REGION_F15
                 return out
@@ -272,18 +311,33 @@ def check(case, ignore_regions=False) -> Outcome:
             byname = {}
             for it in items:
                 byname.setdefault(it["v"], set()).add(bool(it["val"]))
+            # the returned event gives each variable (in ctf-factor form) its value; a name that the event lists in two
+            # worlds at two different values is read per counterfactual version
+            per_version = {}
+            for var, val in ev2:
+                k2 = (var.name, frozenset((i.name, bool(i.star)) for i in interventions_of(var)))
+                mark = bool(getattr(val, "star", False))
+                if per_version.setdefault(k2, mark) != mark:
+                    labels.add("one-version-two-values(skipped)")
+                    out.labels = sorted(labels)
+                    return out
             if any(len(v) > 1 for v in byname.values()):
-                labels.add("ambiguous-symbol(skipped)")
-                out.labels = sorted(labels)
-                return out
+                labels.add("name-at-two-values")
+            labels.add("factorization:evaluated")
             for m in models():
                 ev = Evaluator(m.card, lambda pop, do, m=m: m.joint(do), cf_provider=lambda pop, its, m=m: m.prob_event(its))
                 for vals in itt.product(*[range(m.card[n]) for n in names]):
                     env = dict(zip(names, vals))
                     t0 = cfutil.truth(m, items, env)
-                    ev.set_reading({n: cfutil.value(next(iter(s)), n, env, m.card) for n, s in byname.items()})
+                    reading = {n: (cfutil.value(next(iter(s)), n, env, m.card) if len(s) == 1 else AMBIGUOUS) for n, s in byname.items()}
+                    reading.update({k2: cfutil.value(mark, k2[0], env, m.card) for k2, mark in per_version.items()})
+                    ev.set_reading(reading)
                     try:
                         got = ev.ev(expr, env)
+                    except AmbiguousReading:
+                        labels.add("ambiguous-unlisted-version(skipped)")
+                        out.labels = sorted(labels)
+                        return out
                     except (Undefined, FreeVariable, MultiWorld) as e:
                         return fail("factorisation-not-evaluable", result=str(expr), exc=repr(e))
                     if got != t0:
